@@ -22,7 +22,7 @@ RULE = (
     'Parser. (b) One ScriptJob is executed 2..4 times, some runs stopped '
     'from a device callback after k commands, optionally reloaded with '
     'another text in between; every complete run must produce the trace of '
-    'the first complete run, a stopped run a prefix of it, and the listing '
+    'the first complete run, a stopped run a prefix of its device commands, and the listing '
     'and every time-pattern table of the compiled program must be unchanged '
     'by execution. (c) Jobs A (complete or stopped) then B run in one '
     'process with the production stdout binding; trace and stdout of B must '
@@ -214,7 +214,10 @@ def check_reexecution(acc, case, other, plan):
         trace, stopped, res = execute(world, job, population, stop_after)
         if stopped:
             labels.append('stopped-run')
-            if trace != first[:len(trace)]:
+            # Only device commands: what a stopped run still flushes to the
+            # output sink (pending printf arguments) is not constrained.
+            cmds = [e for e in trace if e[0] == 'cmd']
+            if cmds != [e for e in first if e[0] == 'cmd'][:len(cmds)]:
                 acc.fail('stopped-run-not-prefix',
                          'run #{} (stopped) diverged: {}'.format(
                              index + 2, _first_diff(first, trace)), payload)
